@@ -1,16 +1,143 @@
-import ActixModel.Proofs.DispTimers
+import ActixModel.Proofs.DispTimersC
 /-
 C06 — HTTP/1 connections are time-bounded (slow head, keep-alive, shutdown, drain).
-Model: `ActixModel/Model/DispTimers.lean`; helper lemmas: `ActixModel/Proofs/DispTimers.lean`.
+Model: `ActixModel/Model/DispTimers.lean` (one event = one `Dispatcher::poll` with the answers of
+every oracle it consults and the two clocks); helper lemmas: `ActixModel/Proofs/DispTimers{,B,C}.lean`.
+
+All theorems quantify over *every* configuration (each timer possibly disabled), every state
+reachable by any sequence of polls, and every oracle answer (bytes arriving, EOF, handler / body
+readiness, `poll_write` / `poll_flush` / `poll_shutdown` Ready or Pending, signal) — i.e. over all
+schedules.  Clock assumptions are stated where needed (`cached ≤ now`, monotone `now`).
 -/
 namespace ActixModel.Props.C06
 open ActixModel.DispTimers
 
-/-- Request processing (decode loop + response loop, any handler / body oracle, any fuel) never
+/-- states reachable from `Dispatcher::new` by any sequence of polls -/
+inductive Reach (c : Cfg) (sig : Bool) : St → Prop
+  | init : Reach c sig (St.init c sig)
+  | step {s : St} (i : In) : Reach c sig s → Reach c sig (poll c s i).s
+
+/-- every reachable state satisfies the invariant `Inv` (idle ⇔ KEEP_ALIVE bookkeeping, head timer
+runs only before the first decoded head, the two `debug_assert!`s, WRITE_DISCONNECT only without a
+disconnect timeout, nothing but response bytes in the write buffer) -/
+theorem C06_invariant {c : Cfg} {sig : Bool} {s : St} (h : Reach c sig s) : Inv c s := by
+  induction h with
+  | init => exact Inv.init c sig
+  | step i _ ih => exact poll_inv c _ i ih
+
+/-- request processing (decode loop + response loop, any handler / body oracle, any fuel) never
 touches the keep-alive timer, the shutdown timer, WRITE_DISCONNECT or DRAINING, and can only clear
-the head timer and raise SHUTDOWN / LINGER. -/
+the head timer and raise SHUTDOWN / LINGER -/
 theorem C06_processing_frame (c : Cfg) (i : In) (f : Nat) (s : St) (o : List Out) :
     Frame s (pollResponse c i f (pollRequest c i s).1 o).1 :=
   Frame.trans (pollRequest_frame c i s) (pollResponse_frame c i f _ o)
+
+/-- the `debug_assert!`s of `poll_ka_timer` (keep-alive flag set, no request in flight while the
+keep-alive timer runs) and `poll_shutdown_timer` (SHUTDOWN or LINGER set while the shutdown timer
+runs) hold in every reachable state and in every intermediate state of a poll -/
+theorem C06_debug_asserts_hold {c : Cfg} {sig : Bool} {s : St} (h : Reach c sig s) (i : In) :
+    let s1 := pollHeadTimer c i (pollGraceful i (deliver i s))
+    pollKaTimer c i s1 ≠ none ∧ ∀ s2, pollKaTimer c i s1 = some s2 → pollSdTimer i s2 ≠ .assertFailed := by
+  have hi := pollHeadTimer_inv c i _ (pollGraceful_inv c i _ (deliver_inv c i s (C06_invariant h)))
+  exact ⟨pollKaTimer_ne_none c i _ hi, fun s2 he => pollSdTimer_ne_assert c i s2 (pollKaTimer_inv c i _ s2 hi he)⟩
+
+/-! ### sentence 3: with a disconnect timeout, shutdown never outlasts it -/
+
+/-- states reachable by polls whose cached clock never goes backwards; the index is the cached
+clock of the latest poll -/
+inductive ReachT (c : Cfg) (sig : Bool) : Nat → St → Prop
+  | init : ReachT c sig 0 (St.init c sig)
+  | step {tc : Nat} {s : St} (i : In) : ReachT c sig tc s → tc ≤ i.cached → ReachT c sig i.cached (poll c s i).s
+
+theorem ReachT.reach {c : Cfg} {sig : Bool} {tc : Nat} {s : St} (h : ReachT c sig tc s) : Reach c sig s := by
+  induction h with
+  | init => exact Reach.init
+  | step i _ _ ih => exact Reach.step i ih
+
+/-- the shutdown timer's deadline is never later than `D` after the cached clock of the latest poll
+(it is `cached + D` of the poll that armed it; fix d7d4f66 removed the re-arming) -/
+theorem C06_shutdown_deadline {c : Cfg} {sig : Bool} {tc : Nat} {s : St} (h : ReachT c sig tc s) :
+    ∀ d, s.sdTimer = .active d → c.D ≠ 0 ∧ d ≤ tc + c.D := by
+  induction h with
+  | init => intro d hd; simp [St.init, Timer.new] at hd; split at hd <;> simp at hd
+  | step i _ hle ih =>
+    intro d hd
+    rcases poll_sdStep c _ i d hd with h | ⟨h0, h⟩
+    · have := ih d h; exact ⟨this.1, by omega⟩
+    · exact ⟨h0, by omega⟩
+
+/-- **C06_shutdown_bounded.**  Disconnect timeout `D ≠ 0`.  If a poll at runtime-clock `t` leaves
+the connection waiting in SHUTDOWN (not complete, no immediate re-poll requested), then the shutdown
+timer is running with a deadline `≤ t + D`, and *whatever happens afterwards* — any later events,
+with `poll_flush` / `poll_shutdown` Pending for ever, bytes or EOF arriving, any clock values — the
+connection future is complete after the first poll at or after `t + D`.  (tokio wakes the task at
+the deadline: trusted, observed by the harness.)  False before fixes d7d4f66 / 393d1a8 (F13, F14). -/
+theorem C06_shutdown_bounded {c : Cfg} {sig : Bool} {tc : Nat} {s : St} (h : ReachT c sig tc s) (hD : c.D ≠ 0)
+    (i : In) (hc : tc ≤ i.cached) (hcl : i.cached ≤ i.now)
+    (h1 : (poll c s i).s.complete = false) (h2 : (poll c s i).s.shutdown = true)
+    (h3 : (poll c s i).s.linger = false) (h4 : (poll c s i).selfWake = false) :
+    ∃ d, (poll c s i).s.sdTimer = .active d ∧ d ≤ i.now + c.D ∧
+      ∀ is : List In, (∃ j ∈ is, i.now + c.D ≤ j.now) → (run c (poll c s i).s is).1.complete = true := by
+  have hs : s.complete = false := by
+    cases hsc : s.complete
+    · rfl
+    · rw [poll_complete c s i hsc] at h1; rw [hsc] at h1; exact absurd h1 (by simp)
+  have harm := poll_armed c s i hD hs h1 (Or.inl h2) h4
+  cases hsd : (poll c s i).s.sdTimer with
+  | disabled => simp [hsd, Timer.isActive] at harm
+  | inactive => simp [hsd, Timer.isActive] at harm
+  | active d =>
+    have hdl := (C06_shutdown_deadline (ReachT.step i h hc) d hsd).2
+    refine ⟨d, rfl, by omega, ?_⟩
+    intro is hex
+    apply run_closing c d is _ (poll_inv c s i (C06_invariant h.reach)) (Or.inr ⟨h2, h3, hsd, h1⟩)
+    obtain ⟨j, hj, hjd⟩ := hex
+    exact ⟨j, hj, by omega⟩
+
+/-- **C06_linger_bounded.**  Same for LINGER (early response to a request whose body is unread):
+the timer runs with a deadline `d ≤ t + D`; at the first poll at or after `d` LINGER is over, and one
+more `D` after that poll the connection is complete — whatever the peer does, including never
+reading the response (fix 0ec2d32) and never closing. -/
+theorem C06_linger_bounded {c : Cfg} {sig : Bool} {tc : Nat} {s : St} (h : ReachT c sig tc s) (hD : c.D ≠ 0)
+    (i : In) (hc : tc ≤ i.cached) (hcl : i.cached ≤ i.now)
+    (h1 : (poll c s i).s.complete = false) (h3 : (poll c s i).s.linger = true)
+    (h4 : (poll c s i).selfWake = false) :
+    ∃ d, (poll c s i).s.sdTimer = .active d ∧ d ≤ i.now + c.D ∧
+      ∀ (pre : List In) (j : In) (post : List In),
+        Mono i.now (pre ++ j :: post) → (∀ x ∈ pre ++ [j], x.cached ≤ x.now) →
+        d ≤ j.now → (∃ k ∈ post, j.now + c.D ≤ k.now) →
+        (run c (poll c s i).s (pre ++ j :: post)).1.complete = true := by
+  have hs : s.complete = false := by
+    cases hsc : s.complete
+    · rfl
+    · rw [poll_complete c s i hsc] at h1; rw [hsc] at h1; exact absurd h1 (by simp)
+  have harm := poll_armed c s i hD hs h1 (Or.inr h3) h4
+  cases hsd : (poll c s i).s.sdTimer with
+  | disabled => simp [hsd, Timer.isActive] at harm
+  | inactive => simp [hsd, Timer.isActive] at harm
+  | active d =>
+    have hdl := (C06_shutdown_deadline (ReachT.step i h hc) d hsd).2
+    refine ⟨d, rfl, by omega, ?_⟩
+    intro pre j post hm hcl' hdj hk
+    exact run_lingering c d hD pre _ i.now j post (poll_inv c s i (C06_invariant h.reach))
+      (Or.inr (Or.inl ⟨h3, hsd, h1⟩)) hm hcl' hdj hk
+
+/-- non-vacuity: `GET` with `Connection: close` at t = 0, transport whose `poll_shutdown` pends:
+the hypotheses of `C06_shutdown_bounded` hold (this is the F14 replay) -/
+example :
+    let c : Cfg := { T := 1000, ka := .ms 5000, D := 1000, halfClosed := true }
+    let i : In := { now := 0, cached := 0, arrive := [.C], sd := false }
+    let r := poll c (St.init c false) i
+    r.s.complete = false ∧ r.s.shutdown = true ∧ r.s.linger = false ∧ r.selfWake = false ∧
+      r.s.sdTimer = .active 1000 := by decide
+
+/-- non-vacuity for LINGER: `POST` with unread body answered at once -/
+example :
+    let c : Cfg := { T := 1000, ka := .ms 5000, D := 700, halfClosed := true }
+    let i : In := { now := 0, cached := 0, arrive := [.P], sd := false }
+    let r := poll c (St.init c false) i
+    let r2 := poll c r.s { now := 0, cached := 0, sd := false }
+    r.selfWake = true ∧ r2.s.complete = false ∧ r2.s.linger = true ∧ r2.selfWake = false ∧
+      r2.s.sdTimer = .active 700 := by decide
 
 end ActixModel.Props.C06
